@@ -549,6 +549,42 @@ def avgpool_kernels(res, tier, okx):
     return {"cases": len(cases), "converted": len(conv), "left alone (stride <= 3)": len(left)}
 
 
+def conv_group_slices(res, tier, okx):
+    """correspondence of model/Rewrites.v group_slices with convert_conv_groups: per group the input channels it reads, the
+    filters (and biases) it gets, and the fused activation of the source on every group"""
+    import tempfile
+    n = 40 if tier == "quick" else 600
+    rng = random.Random("c01grp/%d" % vlib.seed())
+    cases = [[rng.randrange(2, 7), rng.randrange(2, 7), rng.choice([2, 2, 3, 4]), rng.choice([1, 2, 4, 8]), rng.choice([1, 2, 3, 8]),
+              rng.choice([1, 3]), rng.randrange(2), 1 if rng.random() < 0.75 else 0, rng.randrange(3)] for _ in range(n)]
+    tmp = tempfile.mkdtemp(prefix="c01grp_", dir=vlib.BUILD)
+    cj, oj = os.path.join(tmp, "cases.json"), os.path.join(tmp, "out.json")
+    json.dump(cases, open(cj, "w"))
+    p = subprocess.run([vlib.PY, os.path.join(vlib.ROOT, "tools", "rewrite_worker.py"), cj, oj, "groups"], env=vlib.py_env({"VERIF_TMP": tmp}),
+                       capture_output=True, text=True, timeout=3000)
+    if p.returncode != 0 or not os.path.exists(oj):
+        res.violation({"machinery": "rewrite worker (groups)"}, {"stderr": p.stderr[-1500:]},
+                      "C01: convert_conv_groups could not be run on generated grouped convolutions", no_input=True)
+        return {"cases": 0}
+    impl = json.load(open(oj))
+    shutil.rmtree(tmp, ignore_errors=True)
+    model = models.run("group_slices", [[c[2], c[2] * c[3], c[2] * c[4]] for c in cases]) if okx else []
+    bad = 0
+    for c, o, m in zip(cases, impl, model):
+        want_act = [None, "Op.Relu", "Op.Relu6"][c[8]]
+        ok = bool(o["converted"]) and o["rows"] == m and o["bias_slices_match"] and \
+            all((a or None) == want_act or (a is not None and want_act is not None and a.split(".")[-1] == want_act.split(".")[-1]) for a in o["activations"])
+        if not ok and bad < 5:
+            bad += 1
+            res.violation({"kind": "conv_group_slices", "case": c},
+                          {"case [h, w, groups, in channels per group, filters per group, kernel, per-axis, bias, activation 0/RELU/RELU6]": c,
+                           "implementation": o, "model rows (ic_lo ic_hi oc_lo oc_hi per group)": m},
+                          "C01: convert_conv_groups on a convolution with %d groups (%d input channels and %d filters per group): the per-group "
+                          "convolutions are not the slices / do not carry the activation of the proved decomposition "
+                          "(props/C01.v split_convolve_concatenate_is_grouped_convolution)" % (c[2], c[3], c[4]))
+    return {"cases": len(model)}
+
+
 def run(tier):
     res = vlib.Result("C01", tier, "other")
     b = vlib.build_property("C01")
@@ -558,6 +594,7 @@ def run(tier):
     rw_cov["widened_kernels"] = widened_kernels(res, tier, okm and b["ok"])
     rw_cov["pad_splits"] = pad_splits(res, tier, okm and b["ok"])
     rw_cov["avgpool_kernels"] = avgpool_kernels(res, tier, okm and b["ok"])
+    rw_cov["conv_group_slices"] = conv_group_slices(res, tier, okm and b["ok"])
     n = 470 if tier == "quick" else 3400
     max_macs = 1200000 if tier == "quick" else 30000000
     rng = random.Random("c01/%d" % vlib.seed())
